@@ -75,7 +75,9 @@ Inductive cpc :=
 | CAwait (c : nat)               (* written on c; AsyncCall returned; waiting for the reply *)
 | CDone (r : result).
 
-Record call := mkCall { c_hold : bool; c_ready : bool; c_pc : cpc }.
+(* c_on: the connection on which the request reached the server while its reply has not been
+   consumed by a reader yet (the server answers even if the client has cancelled the call) *)
+Record call := mkCall { c_hold : bool; c_ready : bool; c_on : option nat; c_pc : cpc }.
 
 Inductive rdpc :=
 | RdLocked                       (* gate redial.locked: lock taken, nothing tested yet *)
@@ -161,7 +163,7 @@ Definition set_rpc (s : st) (i : nat) (p : rpc) : st :=
   end.
 Definition set_cpc (s : st) (k : nat) (p : cpc) : st :=
   match nth_error (calls s) k with
-  | Some cl => set_calls s (upd (calls s) k (mkCall (c_hold cl) (c_ready cl) p))
+  | Some cl => set_calls s (upd (calls s) k (mkCall (c_hold cl) (c_ready cl) (c_on cl) p))
   | None => s
   end.
 
@@ -198,7 +200,7 @@ Definition sock_close (s : st) : st :=
 (* D4: cancel every tabled call that has no reply and an OK status, i.e. every awaiting call *)
 Definition cancel_all (l : list call) : list call :=
   map (fun cl => match c_pc cl with
-                 | CAwait _ => mkCall (c_hold cl) (c_ready cl) (CDone RClosed)
+                 | CAwait _ => mkCall (c_hold cl) (c_ready cl) (c_on cl) (CDone RClosed)
                  | _ => cl
                  end) l.
 
@@ -387,32 +389,46 @@ Definition caller_step (s : st) (k : nat) (wfail : bool) : st :=
         if sockclosed s then conn_closed_path s k c                 (* ErrProactivelyCloseSocket *)
         else if mem (conn s) (lost s) then
           (if wfail then set_cpc s k (CDone RWFail) else set_cpc s k (CAwait (conn s)))
-        else set_calls s (upd (calls s) k (mkCall (c_hold cl) (negb (c_hold cl)) (CAwait (conn s))))
+        else set_calls s (upd (calls s) k (mkCall (c_hold cl) (negb (c_hold cl)) (Some (conn s)) (CAwait (conn s))))
     | _ => s
     end
   end.
 
-(* the reply of call k reaches the reader of its connection *)
+(* the reply of call k reaches the reader of its connection: the call completes; or the loop
+   exits on !goonRead() and abortReply completes the bound call with connection-closed; a reply
+   to a call the client already gave up is dropped, but it still makes the loop look at the
+   status *)
+Definition consume (s : st) (k : nat) : st :=
+  match nth_error (calls s) k with
+  | Some cl => set_calls s (upd (calls s) k (mkCall (c_hold cl) (c_ready cl) None (c_pc cl)))
+  | None => s
+  end.
+
+Fixpoint reading_index (l : list (nat * rpc)) (c : nat) (i : nat) : option nat :=
+  match l with
+  | [] => None
+  | (c', RReading) :: l' => if Nat.eqb c' c then Some i else reading_index l' c (S i)
+  | _ :: l' => reading_index l' c (S i)
+  end.
+
 Definition reply_step (s : st) (k : nat) : st :=
   match nth_error (calls s) k with
   | Some cl =>
-    match c_pc cl with
-    | CAwait c =>
+    match c_on cl with
+    | Some c =>
         if c_ready cl && negb (mem c (lost s)) then
-          (fix find (l : list (nat * rpc)) (i : nat) : st :=
-             match l with
-             | [] => s
-             | (c', RReading) :: l' =>
-                 if Nat.eqb c' c then
-                   (if goon_read (status_ s) then set_cpc s k (CDone ROk)
-                    else (* loop exits on !goonRead(); abortReply completes the bound call
-                            with connection-closed *)
-                      set_cpc (set_rpc s i (RAtRead (status_ s))) k (CDone RClosed))
-                 else find l' (S i)
-             | _ :: l' => find l' (S i)
-             end) (readers s) 0
+          match reading_index (readers s) c 0 with
+          | Some i =>
+              let awaiting := match c_pc cl with CAwait _ => true | _ => false end in
+              if goon_read (status_ s) then
+                (if awaiting then set_cpc (consume s k) k (CDone ROk) else consume s k)
+              else
+                (if awaiting then set_cpc (set_rpc (consume s k) i (RAtRead (status_ s))) k (CDone RClosed)
+                 else set_rpc (consume s k) i (RAtRead (status_ s)))
+          | None => s
+          end
         else s
-    | _ => s
+    | None => s
     end
   | None => s
   end.
@@ -447,11 +463,11 @@ Definition step (s : st) (e : ev) : st :=
           end
       | _, _ => s
       end
-  | EvCall h => set_calls s (calls s ++ [mkCall h false CStart])
+  | EvCall h => set_calls s (calls s ++ [mkCall h false None CStart])
   | EvRelSrv =>
-      set_calls s (map (fun cl => match c_pc cl with
-                                  | CAwait c => if negb (mem c (lost s)) then mkCall (c_hold cl) true (c_pc cl) else cl
-                                  | _ => cl
+      set_calls s (map (fun cl => match c_on cl with
+                                  | Some c => if negb (mem c (lost s)) then mkCall (c_hold cl) true (c_on cl) (c_pc cl) else cl
+                                  | None => cl
                                   end) (calls s))
   | EvPlan p d => set_plan s p d
   end.
